@@ -268,9 +268,56 @@ func init() {
 				}
 				c.Add("slicings_tested", n)
 			})
+			// many windows of one parent kept alive (recycled headers), every earlier window re-inspected
+			for _, t := range []int{dyn.Int8, dyn.Float64} {
+				for _, C := range []int{1, 2, 3} {
+					K := 12
+					root := dyn.Alloc(t, al(C, K, K))
+					fill(root, 1)
+					type win struct {
+						b    dyn.Buf
+						s, e int
+					}
+					var ws []win
+					for k := 0; k < 400; k++ {
+						s := (k * 5) % (K + 1)
+						e := s + (k*3)%(K+1-s)
+						w := root.Slice(s, e)
+						for _, o := range ws {
+							if o.b.Ptr() == w.Ptr() {
+								c.Fail(c02Case{Type: tn(t), C: C, L: K, K: K, S: s, E: e}, core.Failf("Slice/header-reused", "slice #%d of one parent (Slice(%d,%d)) returned the same buffer object as an earlier slice (Slice(%d,%d)) that is still in use", k+1, s, e, o.s, o.e))
+								k = 400
+								break
+							}
+						}
+						ws = append(ws, win{w, s, e})
+						if k%16 == 15 || k >= 400 {
+							for j, o := range ws {
+								want := header{C, dyn.Types[t].Bits, C * (o.e - o.s), C * (K - o.s), o.e - o.s, K - o.s}
+								if h := hdr(o.b); h != want {
+									c.Fail(c02Case{Type: tn(t), C: C, L: K, K: K, S: o.s, E: o.e}, core.Failf("Slice/window-changed", "window #%d = Slice(%d,%d) had shape %+v when taken and has %+v after %d more slicings of the same parent", j+1, o.s, o.e, want, h, k-j))
+									k = 400
+									break
+								}
+							}
+						}
+						c.Eval(1, 1)
+					}
+				}
+			}
+			// a very large parent (more than 2^20 samples) with small windows
+			for _, t := range []int{dyn.Int16, dyn.Float32} {
+				K := 600000
+				for _, se := range [][2]int{{100, 104}, {0, 0}, {K - 4, K}, {K / 2, K/2 + 1}} {
+					cs := c02Case{Type: tn(t), C: 2, L: K, K: K, S: se[0], E: se[1]}
+					c.Check(cs, true, c02Run(cs))
+					cs2 := c02Case{Type: tn(t), C: 2, L: K, K: K, Path: [][2]int{{8, K}}, S: se[0] / 2, E: se[0]/2 + 3}
+					c.Check(cs2, true, c02Run(cs2))
+				}
+			}
 			c.Sample(c02Case{Type: "int8", C: 4, L: 1, K: 2, R: 0, S: 0, E: 1<<62 + 1})
 			c.Sample(c02Case{Type: "float32", C: 2, L: 1, K: 3, R: 1, Path: [][2]int{{1, 2}}, S: 0, E: 2})
-			c.Set("rule", fmt.Sprintf("13 element types x C in 1..4 x roots Alloc(C,L,K<=%d) incl. partly filled last frames x nested valid slicings to depth %d x every (start,end) in ([-2,cap+2] + MinInt, MinInt+1, -2^62, MaxInt/C-1..+1, MaxInt-1, MaxInt, and every x with C*x wrapping mod 2^64 to 0..cap+1)^2; each (root, path, start, end) is enumerated once (distinct by construction) and every one is non-trivial (either a view whose aliasing is checked cell by cell, or a range that must panic)", maxK, maxDepth))
+			c.Set("rule", fmt.Sprintf("13 element types x C in 1..4 x roots Alloc(C,L,K<=%d) incl. partly filled last frames x nested valid slicings to depth %d x every (start,end) in ([-2,cap+2] + MinInt, MinInt+1, -2^62, MaxInt/C-1..+1, MaxInt-1, MaxInt, and every x with C*x wrapping mod 2^64 to 0..cap+1)^2; each (root, path, start, end) is enumerated once (distinct by construction) and every one is non-trivial (either a view whose aliasing is checked cell by cell, or a range that must panic); plus sparse ranges on roots of 17, 100, 1200 frames and of 9-65 channels, 400 windows of one parent kept alive and re-inspected, and small windows of a 1.2-million-sample parent", maxK, maxDepth))
 			c.Assume("the storage is observed through root.Slice(0,K); a Slice broken so that this observer is not an alias makes the alias checks fail rather than pass", "linux/amd64, 64-bit int")
 		},
 		RunCase: func(c *core.Ctx, raw json.RawMessage) []F { return c02Run(decode[c02Case](raw)) },
